@@ -9,11 +9,12 @@ VARIABLES sc, done
 Init == sc \in {s \in Scenarios(MaxDecl) : WellFormedScenario(s)} /\ done = FALSE
 Emit ==
   /\ ~done /\ done' = TRUE /\ UNCHANGED sc
-  /\ LET d == Decl(sc) IN
-     PrintT("SCEN " \o ToJson([sib |-> sc.sib, served |-> sc.served, others |-> SetToSeq(sc.others), c |-> sc.cell.c, sh |-> sc.cell.sh,
-                               role |-> RoleOf(d, sc.served), status |-> ServedCode(sc.served),
+  /\ LET d == Decl(sc)
+         ds == DocSeq(sc) IN
+     PrintT("SCEN " \o ToJson([sib |-> sc.sib, desc |-> sc.desc, order |-> ds, served |-> sc.served, others |-> SetToSeq(sc.others), c |-> sc.cell.c, sh |-> sc.cell.sh,
+                               role |-> RoleOf(d, ds, sc.served), status |-> ServedCode(sc.served),
                                decl |-> [st \in DOMAIN d |-> d[st]],
-                               model_ann |-> SetToSeq(Ann("as_is", d)),
+                               model_ann |-> SetToSeq(Ann("as_is", d, ds)),
                                bodies |-> SetToSeq(Bodies(sc.cell.c, sc.cell.sh, Level))]))
 Spec == Init /\ [][Emit]_<<sc, done>>
 =============================================================================
